@@ -33,6 +33,20 @@ MALFORMED = ("wrong_version", "unknown_type", "unknown_type_payload", "len_over_
 _VLOCK = threading.RLock()
 
 
+def _repo_hash():
+    """Content hash of the build-relevant files of the tree under test only (build.tree_hash also covers /verif/tools and
+    probes, which other people edit while a check runs)."""
+    import hashlib
+    h = hashlib.sha256()
+    for p in build._iter_files(build.REPO):
+        try:
+            with open(p, "rb") as f:
+                h.update(p.encode() + b"\0" + hashlib.sha256(f.read()).digest())
+        except OSError:
+            h.update(p.encode() + b"\0?")
+    return h.hexdigest()
+
+
 def _violation(ctx, key, what, files=None):
     with _VLOCK:
         return ctx.violation(key, what, files)
@@ -761,6 +775,7 @@ def _asan_env(fl, logbase):
 
 
 def _gone_key(dm, where):
+    dm.wait_dead(10.0)
     rc = dm.returncode()
     return "daemon-gone|%s|%s" % (where, "signal %d" % -rc if rc is not None and rc < 0 else "exit %s" % rc)
 
@@ -991,6 +1006,7 @@ def run(ctx):
 
 
 def _run(ctx, fl, sc, lanes):
+    repo_hash0 = _repo_hash()
     # ---- modules + standalone expectations -----------------------------------------------------------------------
     good, loops = {}, {}
 
@@ -1145,7 +1161,7 @@ def _run(ctx, fl, sc, lanes):
     if errs:
         raise errs[0]
 
-    if ctx.violations and (build.tree_hash() != build.current_hash() or not all(os.path.exists(b) for b in (fl.nano_vmd, fl.nano_vm, fl.nano_cop))):
+    if ctx.violations and (_repo_hash() != repo_hash0 or not all(os.path.exists(b) for b in (fl.nano_vmd, fl.nano_vm, fl.nano_cop))):
         # what was observed cannot be attributed to one definite tree / build: not a verdict
         raise core.Inconclusive("/repo (or the cached build in %s) changed while the check was running; unattributable observations: %s"
                                 % (fl.root, [v[0] for v in ctx.violations][:6]))
